@@ -143,6 +143,7 @@ package runner
 //@     invariant #started rangeindex == -1 && ccN == old(ccN) ==> rangeindex#1 == 0 || len(t.Commands) == 0
 //@     invariant #no-commands len(t.Commands) == 0 ==> ccN == old(ccN)
 //@   callsite CompileCommand
+//@     requires #C13.command-carries-task-timeout arg3 == t.Timeout && arg2 == t.Dir
 //@     requires #C09.variation-over-env forall k string :: (cdom[arg7][k] <==> (cdom[env][k] || (k in variant))) && ((k in variant) ==> cval[arg7][k] == boxstr(variant[k])) && (!(k in variant) && cdom[env][k] ==> cval[arg7][k] == cval[env][k])
 //@     ghost ccV[ccN] = rangeindex
 //@     ghost ccC[ccN] = rangeindex#2
@@ -152,6 +153,8 @@ package runner
 
 //@ func (*TaskRunner).checkTaskCondition
 //@   requires runnerOK(r) && t != nil && executionContext != nil && compiledClosed()
+//@   callsite CompileCommand
+//@     requires #C13.condition-carries-task-timeout arg3 == t.Timeout && arg2 == t.Dir
 //@   modifies runN, runJob, runErr, bufLen, interp.Runner.Dir, interp.Runner.Env, compiled, cdom, cval, executor.Job.Dir, executor.DefaultExecutor.*
 //@   ensures #log-prefix runN >= old(runN) && runN <= old(runN) + 1 && (forall i int :: i < old(runN) ==> runJob[i] == old(runJob[i]) && runErr[i] == old(runErr[i]))
 //@   ensures #C06.no-condition t.Condition == "" ==> result && result#1 == nil && runN == old(runN)
@@ -159,6 +162,8 @@ package runner
 
 //@ func (*TaskRunner).before
 //@   requires runnerOK(r) && t != nil && execContext != nil && vars != nil && env != nil && compiledClosed()
+//@   callsite CompileCommand
+//@     requires #C13.hook-carries-task-timeout arg3 == t.Timeout && arg2 == t.Dir && arg7 == env && arg8 == vars
 //@   modifies runN, runJob, runErr, bufLen, interp.Runner.Dir, interp.Runner.Env, compiled, cdom, cval, executor.Job.Dir, executor.DefaultExecutor.*
 //@   ensures #log-prefix runN >= old(runN) && (forall i int :: i < old(runN) ==> runJob[i] == old(runJob[i]) && runErr[i] == old(runErr[i]))
 //@   ensures #C06.before-all-ok result == nil ==> runN == old(runN) + len(t.Before) && (forall i int :: old(runN) <= i && i < runN ==> runErr[i] == nil)
@@ -172,6 +177,8 @@ package runner
 
 //@ func (*TaskRunner).after
 //@   requires runnerOK(r) && t != nil && execContext != nil && vars != nil && env != nil && compiledClosed()
+//@   callsite CompileCommand
+//@     requires #C13.hook-carries-task-timeout arg3 == t.Timeout && arg2 == t.Dir && arg7 == env && arg8 == vars
 //@   modifies runN, runJob, runErr, bufLen, interp.Runner.Dir, interp.Runner.Env, compiled, cdom, cval, executor.Job.Dir, executor.DefaultExecutor.*
 //@   ensures #log-prefix runN >= old(runN) && runN <= old(runN) + len(t.After) && (forall i int :: i < old(runN) ==> runJob[i] == old(runJob[i]) && runErr[i] == old(runErr[i]))
 //@   ensures compiledClosed()
